@@ -116,9 +116,9 @@ def execute(spec, policy, seed=0, step_budget=40000):
 
         def logged_disconnect(immediate=False):
             me = run.sched.me()
-            if immediate and me is not None and me.name.startswith('net'):
-                import sys as _sys
-                src = 'he' if _sys._getframe(1).f_code.co_name == '_handle_exception' else 'other'
+            import sys as _sys
+            src = {'_handle_exception': 'he', 'react': 'react', 'api': 'api'}.get(_sys._getframe(1).f_code.co_name, 'other')
+            if me is not None and me.name.startswith('net') and (immediate or src == 'react'):
                 run.sched.log('disc_by', src=src)   # (the projection attached to the event is the state before the call)
             return real_disconnect(immediate)
         c.disconnect = logged_disconnect
@@ -129,6 +129,9 @@ def execute(spec, policy, seed=0, step_budget=40000):
                     api(run, c, 'disc')
                     api(run, c, 'connect')
             c.register_packet_listener(relisten, clientbound.play.TimeUpdatePacket, early=bool(spec.get('early')))
+            if spec.get('relisten_on_disc'):
+                # ... or reconnects when the server says goodbye (without suppressing the packet's default action)
+                c.register_packet_listener(relisten, clientbound.play.DisconnectPacket, early=bool(spec.get('early')))
         if spec.get('raise_in_listener'):
             def boom(pkt):
                 for _ in range(3):          # a listener that takes its time: other threads may act meanwhile
@@ -217,6 +220,7 @@ def random_spec(rng, users=2, maxops=3):
         'servers': [rng.choice(SERVERS) for _ in range(8)],
         'comp': [rng.choice([None, None, 0, 64]) for _ in range(8)],      # per TCP connection: threshold announced at login
         'listener_reconnect': rng.random() < 0.35,
+        'relisten_on_disc': rng.random() < 0.5,
         'early': rng.random() < 0.5,
         'handler_reconnect': rng.random() < 0.3,
         'raise_in_listener': rng.random() < 0.2,
